@@ -106,11 +106,13 @@ def theorem_names(module):
     src = strip_comments(p.read_text())
     ns = None
     names = []
-    for m in re.finditer(r"^\s*(?:namespace\s+(\S+)|(?:private\s+|protected\s+)?theorem\s+(\S+))", src, re.M):
+    for m in re.finditer(r"^\s*(?:namespace\s+(\S+)|(?:private\s+|protected\s+)?theorem\s+(\S+)|(c\d\d)_class\s+(\S+))", src, re.M):
         if m.group(1):
             ns = m.group(1)
-        else:
+        elif m.group(2):
             names.append((ns + "." if ns else "") + m.group(2))
+        else:   # `cNN_class X` macro invocation declares theorem cNN_X
+            names.append((ns + "." if ns else "") + m.group(3) + "_" + m.group(4))
     return names
 
 
